@@ -25,6 +25,8 @@ def catalog(prog, tier):
         'prune': lambda: [P.vc_prune(prog, t, w) for t in (False, True) for w in (False, True)],
         'obs': lambda: [V.vc_obs_distance(prog), V.vc_obs_simple(prog)],
         'match_states': lambda: [OC.vc_match_states(prog, k, f) for k, f in (('node', 'base'), ('edge', 'base'), ('edge', 'distance'))],
+        'ne_end': lambda: [OC.vc_ne_end(prog, k, f) for k, f in (('node', 'base'), ('edge', 'base'), ('edge', 'distance'))],
+        'ne_inner': lambda: [OC.vc_ne_inner(prog, k, f) for k, f in (('node', 'base'), ('edge', 'base'), ('edge', 'distance'))],
         'trans': lambda: [V.vc_trans_distance(prog, o, h) for o in (True, False) for h in (True, False)] +
                          [V.vc_trans_simple(prog, m, h) for m in (True, False) for h in (True, False)],
     }
@@ -61,7 +63,16 @@ def run_property(pid, tier, seed, only, spec):
         for fv, rep in built[source]:
             chk.add_function(prog.span(fv))
             if rep.unsupported:
-                chk.undecided.append(f"{rep.name}: unsupported construct(s): {sorted(set(rep.unsupported))[:3]}")
+                lab = [u for u in set(rep.unsupported) if 'label genericity' in u]
+                if lab and pid == 'C16':
+                    # C16 obligation: functions under contract type-check against labels as an equality-only sort
+                    chk.violation(key=f"C16:label-genericity:{rep.name}", text=f"{rep.name}: {lab[0]}",
+                                  replay={'kind': 'deductive', 'obligation': 'label-genericity', 'function': rep.name, 'diagnostic': lab,
+                                          'note': 'a node label is used in a way that is not invariant under renaming (truthiness, ordering or arithmetic)'},
+                                  reproduced=False)
+                rest = [u for u in set(rep.unsupported) if u not in lab or pid != 'C16']
+                if rest:
+                    chk.undecided.append(f"{rep.name}: unsupported construct(s): {sorted(rest)[:3]}")
             sel = [o for o in rep.obligations if re.search(rx, clause_of(o.name))]
             obs += sel
         if not obs:
